@@ -12,6 +12,8 @@ _PLAIN = (int, float, str, bytes, bool, type(None))
 def _c(v, now, depth, seen):
     if isinstance(v, bool) or v is None or isinstance(v, (int, str)):
         return v
+    if hasattr(v, '__canon__'):
+        return v.__canon__()
     if isinstance(v, float):
         if v > rt.T0 - 1000:          # an absolute (virtual) time: keep it relative to now, 1 ms grid
             return ('t', int(round((v - now) * 1000)))
